@@ -13,7 +13,7 @@ from common import CORPUS_DIR, call
 import gen_scenario as G
 import snapshot as S
 
-RULE = ("trajectories have consecutive or gapped time steps (one in three); a case is one schema-expressible spec (scenario x planning-problem set, built through the public constructors) and one "
+RULE = ("every spec is judged at 3 precisions: once on the plain path, twice with a generated plan (alternative entry points, writer overrides, reuse / failing first call, history of setters and in-place edits, read-only queries; gen_scenario.HistoryGen); the dimension table c01_dimensions.DIMENSIONS is checked against the real signatures first; trajectories have consecutive or gapped time steps (one in three); a case is one schema-expressible spec (scenario x planning-problem set, built through the public constructors) and one "
         "decimal precision 1..12; every spec is written and read back at 3 precisions (quick); enumerations of the XSD are visited "
         "round-robin; non-trivial = every case (each has >= 1 lanelet and >= 1 planning problem with truncated reals); "
         "distinct = distinct canonical JSON of (spec, precision)")
@@ -33,6 +33,13 @@ ASSUMPTIONS = [
     "type initialStateExact of a planning problem admits no further element",
     "the exponent-notation tables (format(x,'.df'), format_float_positional) are parameters of the model under the contract "
     "FixOk, which the harness checks on every case with fractions.Fraction; CR.X.realVal is compared with Fraction on every repr",
+    "SetBasedPrediction.initial_time_step has no element in the XML format (the reader derives it from the first occupancy): a "
+    "prediction whose initial_time_step differs from its first occupancy's time is not schema-expressible; the oracle expects the "
+    "derived value",
+    "for |x| >= 2^53 (repr with positive exponent) the written text is the exact binary value of the double, which differs from the "
+    "decimal value of its shortest repr by up to half an ulp (>= 1): the text-level contract FixOk (hypothesis of C01_floatToStr_close "
+    "/ C01_norm_reals_close) does not hold for such reprs and those theorems do not speak about them; the float-level oracle does "
+    "(float(written text) == x exactly); bucket fixok-not-applicable:huge",
     "first_occurrence of a traffic sign, the centre line of a lanelet, TrafficLight.color and the state class name are not part of "
     "the XML format (derived on reading) and are not compared",
 ]
@@ -41,6 +48,14 @@ REQUIRED_BUCKETS = ["role:static", "role:dynamic", "role:environment", "role:pha
                     "shape:rect", "shape:circ", "shape:poly", "shape:group", "state:interval", "state:region", "state:custom",
                     "init:no-acceleration", "sign:virtual", "signal:horn", "goal:lanelets", "goal:shape", "light:inactive",
                     "stopline", "intersection", "precision:1", "precision:12", "xsd-valid", "3d", "witness:initial-extra", "traj:gaps", "traj:consecutive",
+                    # the write / read plan: entry points, flags, reuse, failing first call
+                    "plan:plain", "w-entry:xml", "w-method:scenario_only", "w-validity:True", "w-filename:path", "w-filename:default",
+                    "w-overrides:yes", "w-reuse:twice", "w-reuse:fail-first", "w-reuse:other-writer-after", "w-reuse:existing-file",
+                    "w-reuse:other-writer-between", "r-entry:xml", "r-entry:bytes", "r-entry:facade-format", "r-method:open-twice",
+                    "r-method:open-assign", "r-method:network-only", "r-method:open-after-other",
+                    "build:signs_via=add_objects", "build:obstacles_via=list", "build:lanelets_via=single", "build:numpy_scalars=True",
+                    "build:ints_for_reals=True", "enum-full:history-op", "enum-full:query", "history:3", "queries:2",
+                    "goalclass:KSState", "goalclass:PMState", "goalclass:CustomState",
                     # every member of these XSD enumerations was used at least once
                     "enum-full:lineMarking", "enum-full:laneletType", "enum-full:vehicleType", "enum-full:obstacleTypeStatic",
                     "enum-full:obstacleTypeDynamic", "enum-full:obstacleTypeEnvironment", "enum-full:trafficLightColor",
@@ -80,8 +95,21 @@ def _fill_initial(st):
             a[n] = {"pt": [0.0, 0.0]} if n == "position" else {"x": 0.0}
 
 
-def expected(snap):
-    """What the property promises for the read-back snapshot, given the snapshot of the original."""
+DEFAULT_LOCATION = {"geo_name_id": -999, "lat": 999.0, "lon": 999.0, "geo": None, "env": None}
+
+
+def _goal_lanelet_positions(snap):
+    """a goal position given by lanelets is the list of lanelet ids (the reader re-derives the polygons from the lanelets it read)"""
+    for p in snap.get("pps", {}).values():
+        if isinstance(p, dict) and "goals" in p:
+            for idx, ids in p.get("goal_lanelets", {}).items():
+                g = p["goals"][int(idx)] if int(idx) < len(p["goals"]) else None
+                if g and "position" in g["attrs"]:
+                    g["attrs"]["position"] = {"lanelets": sorted(ids)}
+
+
+def expected(snap, info=None):
+    """What the property promises for the read-back snapshot, given the snapshot of the original (and how it was written)."""
     e = copy.deepcopy(snap)
     for o in e["obstacles"].values():
         if isinstance(o, dict) and "initial_state" in o:
@@ -89,25 +117,141 @@ def expected(snap):
     for p in e.get("pps", {}).values():
         if isinstance(p, dict):
             _fill_initial(p["initial_state"])
+    _goal_lanelet_positions(e)
+    for o in e["obstacles"].values():
+        # the XML format has no place for the initial time step of an occupancy set: the reader takes the first occupancy's
+        p = o.get("prediction") if isinstance(o, dict) else None
+        if p and p.get("kind") == "set" and p["occupancies"]:
+            t0 = p["occupancies"][0]["time"]
+            p["initial_time_step"] = t0["t"] if "t" in t0 else t0["tiv"][0]
+    info = info or {}
+    eff = info.get("eff")
+    if eff:     # the writer's own author / affiliation / source / tags / location win over the scenario's
+        e["meta"]["author"], e["meta"]["affiliation"], e["meta"]["source"] = eff["author"], eff["affiliation"], eff["source"]
+        e["meta"]["tags"] = sorted(set(eff["tags_list"]))
+        e["meta"]["location"] = S.snap_location(eff["location_obj"])
+    if e["meta"]["location"] is None:
+        e["meta"]["location"] = dict(DEFAULT_LOCATION)      # the writer writes `Location()` for a scenario without location
+    if info.get("scenario_only"):
+        e["n_pps"], e["pps"] = 0, {}
+    if info.get("network_only"):
+        e = {k: v for k, v in e.items() if k in ("n_lanelets", "lanelets", "n_signs", "signs", "n_lights", "lights", "n_intersections",
+                                                 "intersections")}
     return e
 
 
 # ------------------------------------------------------------------------------------------------ one case
 
+DEFAULT_PLAN = {"build": {}, "writer": {"entry": "facade", "method": "write_to_file", "check_validity": False, "filename": "str",
+                                        "reuse": "other-writer-between", "overrides": None},
+                "reader": {"entry": "facade", "method": "open"}, "history": [], "queries": []}
+
+
+def _other_scenario():
+    """a small second scenario (another country, other content) for reuse histories"""
+    spec = json.load(open(os.path.join(CORPUS_DIR, "C01", "light_offset_one_single_stopline_ref.json")))["spec"]
+    return G.build(spec)
+
+
 def write_read(spec, path, d):
-    """build -> write at precision d -> read. Returns (snapshot of original, snapshot read back, objects) or raises."""
+    """build -> history (setters, in-place edits, ...) -> read-only queries -> [snapshot of the original] -> write at precision d
+    through the planned entry point / reuse pattern -> read through the planned entry point.
+    Returns (snapshot of original, snapshot read back, objects, info) or raises."""
+    import pathlib
     from commonroad.common.file_reader import CommonRoadFileReader
     from commonroad.common.file_writer import CommonRoadFileWriter, OverwriteExistingFile
+    from commonroad.common.reader.file_reader_xml import XMLFileReader
+    from commonroad.common.util import FileFormat
+    from commonroad.common.writer.file_writer_xml import XMLFileWriter
+    from commonroad.scenario.scenario import Tag
+    plan = spec.get("plan") or DEFAULT_PLAN
+    W, Rd = plan["writer"], plan["reader"]
     sc, pps = G.build(spec)
+    hist_log = G.apply_history(sc, pps, plan["history"], spec["scenario_id"]["country"])
+    query_log = G.run_queries(sc, pps, plan["queries"])
     before = S.snapshot(sc, pps)
+    tmpdir = os.path.dirname(path)
     if os.path.exists(path):
         os.remove(path)
-    w = CommonRoadFileWriter(sc, pps, decimal_precision=d)
-    # "d being the writer's decimal precision": another writer with another precision is constructed in between (and never used)
-    CommonRoadFileWriter(sc, pps, decimal_precision=13 - d if d != 13 - d else 3)
-    w.write_to_file(path, OverwriteExistingFile.ALWAYS)
-    sc2, pps2 = CommonRoadFileReader(path).open()
-    return before, S.snapshot(sc2, pps2), (sc, pps, sc2, pps2)
+    # ---- writer
+    kw = {}
+    ov = W.get("overrides") or {}
+    for k in ("author", "affiliation", "source"):
+        if k in ov:
+            kw[k] = ov[k]
+    if "tags" in ov:
+        kw["tags"] = {G.enum_by_value(Tag, t) for t in ov["tags"]}
+    if "location" in ov:
+        kw["location"] = G.build_location(ov["location"])
+    Wcls = XMLFileWriter if W["entry"] == "xml" else CommonRoadFileWriter
+    other_d = 13 - d if d != 13 - d else 3
+    reuse = W["reuse"]
+    if reuse == "other-writer-after":
+        # "d being the writer's decimal precision": a second writer (other scenario, other precision) writes first
+        sc_o, pps_o = _other_scenario()
+        Wcls(sc_o, pps_o, decimal_precision=other_d).write_to_file(os.path.join(tmpdir, "other.xml"), OverwriteExistingFile.ALWAYS)
+    w = Wcls(sc, pps, decimal_precision=d, **kw)
+    if reuse == "other-writer-between":
+        Wcls(sc, pps, decimal_precision=other_d)       # constructed between construction and use of w, never used
+    target = path
+    if W["filename"] == "path":
+        target = pathlib.Path(path)
+    write = (lambda fn: w.write_scenario_to_file(fn, OverwriteExistingFile.ALWAYS)) if W["method"] == "scenario_only" else \
+        (lambda fn: w.write_to_file(fn, OverwriteExistingFile.ALWAYS, check_validity=W["check_validity"]))
+    if reuse == "twice":
+        write(os.path.join(tmpdir, "first.xml"))       # the same writer writes twice; the second file is observed
+    elif reuse == "fail-first":
+        r = call(write, os.path.join(tmpdir, "no-such-dir", "x.xml"))    # fails after the tree was built
+        assert r[0] == "err", "writing into a missing directory did not fail"
+    elif reuse == "existing-file":
+        open(path, "w").write("<commonRoad/>")
+    if W["filename"] == "default":
+        cwd = os.getcwd()
+        os.chdir(tmpdir)
+        try:
+            write(None)
+            default = str(sc.scenario_id) + (".xml" if W["method"] != "scenario_only" else "")
+            os.replace(os.path.join(tmpdir, default), path)
+        finally:
+            os.chdir(cwd)
+    else:
+        write(target)
+    # ---- reader
+    src = path
+    if Rd["entry"] == "bytes":
+        src = open(path, "rb").read()
+    if Rd["entry"] == "xml":
+        reader = XMLFileReader(src)
+    elif Rd["entry"] in ("facade-format", "bytes"):
+        reader = CommonRoadFileReader(src, FileFormat.XML)
+    else:
+        reader = CommonRoadFileReader(pathlib.Path(src) if W["filename"] == "path" else src)
+    m = Rd["method"]
+    if m == "open-after-other":
+        # the reader classes keep class-level state (LaneletFactory._speed_limits): another file is read first
+        sc_o, pps_o = _other_scenario()
+        po = os.path.join(tmpdir, "other_r.xml")
+        CommonRoadFileWriter(sc_o, pps_o, decimal_precision=4).write_to_file(po, OverwriteExistingFile.ALWAYS)
+        CommonRoadFileReader(po).open()
+    if m == "network-only":
+        net = reader.open_lanelet_network()
+        sc2, pps2 = _ScenarioView(net), None
+    else:
+        if m == "open-twice":
+            reader.open()
+        sc2, pps2 = reader.open(lanelet_assignment=(m == "open-assign"))
+    eff_tags = kw["tags"] if "tags" in kw else sc.tags
+    eff_loc = kw["location"] if "location" in kw else sc.location
+    info = {"overrides": ov, "scenario_only": W["method"] == "scenario_only", "network_only": m == "network-only",
+            "history": hist_log, "queries": query_log,
+            "eff": {"author": kw.get("author", sc.author), "affiliation": kw.get("affiliation", sc.affiliation),
+                    "source": kw.get("source", sc.source), "tags_list": [t.value for t in eff_tags], "location_obj": eff_loc}}
+    return before, (S.snapshot(sc2, pps2) if m != "network-only" else S.snapshot_network(net)), (sc, pps, sc2, pps2), info
+
+
+class _ScenarioView:
+    def __init__(self, net):
+        self.lanelet_network = net
 
 
 def _class_of(path, kind):
@@ -119,6 +263,17 @@ def _class_of(path, kind):
 def tags_of(ctx, spec, d):
     t = ctx.tag
     t(f"precision:{d}")
+    plan = spec.get("plan")
+    if plan:
+        W, Rd, B = plan["writer"], plan["reader"], plan["build"]
+        t("w-entry:" + W["entry"]), t("w-method:" + W["method"]), t("w-reuse:" + W["reuse"]), t("w-filename:" + W["filename"])
+        t("w-validity:" + str(W["check_validity"])), t("w-overrides:" + ("yes" if W["overrides"] else "no"))
+        t("r-entry:" + Rd["entry"]), t("r-method:" + Rd["method"])
+        for k, v in B.items():
+            t(f"build:{k}={v}")
+        t("history:%d" % min(len(plan["history"]), 3)), t("queries:%d" % min(len(plan["queries"]), 2))
+    else:
+        t("plan:plain")
     for o in spec["obstacles"]:
         t("role:" + o["role"])
         if o.get("prediction"):
@@ -159,6 +314,7 @@ def tags_of(ctx, spec, d):
         if "acceleration" not in p["initial_state"]["attrs"]:
             t("init:no-acceleration")
         for g in p["goals"]:
+            t("goalclass:" + g["cls"])
             pos = g["attrs"].get("position")
             if pos and "lanelets" in pos:
                 t("goal:lanelets")
@@ -183,9 +339,13 @@ def judge(ctx, spec, d, path, model=True):
     if r[0] == "err":
         ctx.fail(f"C01/write-read/raises-{r[1]}", f"write->read raised {r[2]} at precision {d}", case)
         return None
-    before, back, objs = r[1]
+    before, back, objs, info = r[1]
+    for k, res in info["history"]:
+        ctx.tag("hist:" + k if res == "ok" else "hist-skipped:" + k)
+    for k, res in info["queries"]:
+        ctx.tag("query:" + k)
     if model:
-        correspond(ctx, case, spec, d, path, *objs)
+        correspond(ctx, case, spec, d, path, *objs, info=info)
     # XSD validity of the written file measures the generator (schema-expressible by construction)
     from lxml import etree
     try:
@@ -204,7 +364,8 @@ def judge(ctx, spec, d, path, model=True):
         ctx.excluded += 1
         ctx.tag("3d")
         return before, back
-    want = expected(before)
+    want = expected(before, info)
+    _goal_lanelet_positions(back)
     ds = S.diff(want, back, S.tol_precision(d), ignore=IGNORE)
     seen = set()
     total = ctx.__dict__.setdefault("_c01_reported", {})
@@ -435,10 +596,11 @@ def m_location(R, loc):
                                             "weather": e.weather.value, "underground": e.underground.value}}
 
 
-def m_file(R, sc, pps, tags):
-    return {"header": {"dt": R(sc.dt), "author": sc.author, "affiliation": sc.affiliation, "source": sc.source,
+def m_file(R, sc, pps, tags, eff=None):
+    eff = eff or {"author": sc.author, "affiliation": sc.affiliation, "source": sc.source, "location_obj": sc.location}
+    return {"header": {"dt": R(sc.dt), "author": eff["author"], "affiliation": eff["affiliation"], "source": eff["source"],
                        "benchmarkId": str(sc.scenario_id)},
-            "location": m_location(R, sc.location), "tags": tags, "body": m_doc(R, sc, pps)}
+            "location": m_location(R, eff["location_obj"]), "tags": tags, "body": m_doc(R, sc, pps)}
 
 
 def file_cfg(d, fix, pos, today):
@@ -467,8 +629,17 @@ def check_tables(ctx, case, d, P, reprs, more=()):
     bound = Fraction(1, 10 ** d)
     bad = []
     for k, v in P["fix"]:
-        if not _PLAIN.match(v) or not abs(Fraction(v) - Fraction(k)) < bound:
-            bad.append(["fix", k, v])
+        x = Fraction(float(k))            # the double itself
+        if not _PLAIN.match(v) or not abs(Fraction(v) - x) < bound:
+            bad.append(["fix", k, v])     # format(x, '.<d>f') is not within 10^-d of the float: never
+        elif not abs(Fraction(v) - Fraction(k)) < bound:
+            # |x| >= 2^53: format() prints the exact binary value, which differs from the decimal value of the shortest repr by up
+            # to half an ulp (>= 1). The text-level contract FixOk does not hold for such a repr (the theorems with hypothesis
+            # FixOk say nothing about this case); the float-level oracle judges it (float(text) == x exactly).
+            if abs(x) >= 2 ** 53:
+                ctx.tag("fixok-not-applicable:huge")
+            else:
+                bad.append(["fix-text", k, v])
     for k, v in P["pos"]:
         if not _PLAIN.match(v) or Fraction(v) != Fraction(k):
             bad.append(["pos", k, v])
@@ -520,14 +691,19 @@ def witness_initial_extra(ctx):
     correspond(ctx, case, spec, 4, path, sc, pps, sc, pps2, compare_write=True)
 
 
-def correspond(ctx, case, spec, d, path, sc, pps, sc2, pps2, compare_write=True):
+def correspond(ctx, case, spec, d, path, sc, pps, sc2, pps2, compare_write=True, info=None):
     """whole file: model encode vs the written tree; model decode of the written tree vs what the reader returned;
     model round trip vs norm (the statement of C01_xml_roundtrip_whole_file, executed)"""
     from lxml import etree
     from commonroad.scenario.scenario import Tag
     R = Reals()
     # the writer iterates the scenario's tag set (`for tag in tags`): same object, same order
-    fil = m_file(R, sc, pps, [t.value for t in sc.tags])
+    from commonroad.planning.planning_problem import PlanningProblemSet
+    info = info or {}
+    eff = info.get("eff")
+    if info.get("scenario_only"):
+        pps = PlanningProblemSet()
+    fil = m_file(R, sc, pps, eff["tags_list"] if eff else [t.value for t in sc.tags], eff)
     root = etree.parse(path).getroot()
     fcfg = file_cfg(d, R.fix(d), R.pos(), root.get("date"))
     tree = xml_json(root)
@@ -535,9 +711,10 @@ def correspond(ctx, case, spec, d, path, sc, pps, sc2, pps2, compare_write=True)
     ctx.compare(case, {"ok": tree}, enc, "XMLFileWriter <commonRoad> tree vs CR.X.encodeFile")
     dec = ctx.driver.ask("C01", "decode_file", {"fcfg": fcfg, "xml": tree})
     R2 = Reals()
-    back = m_file(R2, sc2, pps2, [t.value for t in Tag if t in sc2.tags])
-    ctx.compare(case, {"ok": canon_doc(back)}, {"ok": canon_doc(dec["ok"])} if "ok" in dec else dec,
-                "XMLFileReader result vs CR.X.decodeFile of the written tree")
+    if not info.get("network_only"):
+        back = m_file(R2, sc2, pps2, [t.value for t in Tag if t in sc2.tags])
+        ctx.compare(case, {"ok": canon_doc(back)}, {"ok": canon_doc(dec["ok"])} if "ok" in dec else dec,
+                    "XMLFileReader result vs CR.X.decodeFile of the written tree")
     rt = ctx.driver.ask("C01", "roundtrip_file", {"fcfg": fcfg, "file": fil})
     nm = ctx.driver.ask("C01", "norm_file", {"fcfg": fcfg, "file": fil})
     ctx.compare(case, rt, nm, "CR.X.decodeFile (encodeFile x) vs CR.X.normFile x (the statement of C01_xml_roundtrip_whole_file, executed)")
@@ -559,6 +736,9 @@ def precisions_for(ctx, k):
 
 
 def run(ctx):
+    import c01_dimensions
+    n_dim = c01_dimensions.check(G.HISTORY_OPS, G.QUERIES)      # InfraError (exit 2) if the library grew past the table
+    ctx.hist["dimension-table-entries"] = n_dim
     tmp = ctx.tmpdir()
     path = os.path.join(tmp, "c01.xml")
     for p in sorted(glob.glob(os.path.join(CORPUS_DIR, "C01", "*.json"))):
@@ -567,12 +747,17 @@ def run(ctx):
         judge(ctx, case["spec"], case["precision"], path)
     witness_initial_extra(ctx)
     gen = G.Gen(ctx.rng, three_d=0.08)
+    hgen = G.HistoryGen(gen)
     for k in range(ctx.n(400)):
         spec = gen.gen_spec()
-        for d in precisions_for(ctx, k):
-            spec["precision"] = d
-            tags_of(ctx, spec, d)
-            judge(ctx, spec, d, path)
+        for j, d in enumerate(precisions_for(ctx, k)):
+            # first precision: the plain path (constructor-built objects, facade writer and reader); the other two: a planned
+            # history / entry points / reuse pattern each
+            case_spec = dict(spec, precision=d)
+            if j > 0:
+                case_spec["plan"] = hgen.plan(spec)
+            tags_of(ctx, case_spec, d)
+            judge(ctx, case_spec, d, path)
     for name in gen.fully_visited():
         ctx.tag("enum-full:" + name)
 
